@@ -341,6 +341,11 @@ func verifC11Class(o testOutcome) string {
 // VerifC11Run runs the real runTestCasesForServer on a scripted server process and a scripted
 // client runner.
 func VerifC11Run(spec VerifC11Spec) VerifC11Obs {
+	obs, _ := verifC11Run(spec)
+	return obs
+}
+
+func verifC11Run(spec VerifC11Spec) (VerifC11Obs, *testResults) {
 	cases := make([]*conformancev1.TestCase, len(spec.Names))
 	for i, n := range spec.Names {
 		cases[i] = &conformancev1.TestCase{
@@ -421,7 +426,7 @@ func VerifC11Run(spec VerifC11Spec) VerifC11Obs {
 		if p := client.proc(); p != nil {
 			p.stop()
 		}
-		return obs
+		return obs, results
 	}
 	client.async.Wait()
 	p := client.proc()
@@ -462,5 +467,5 @@ func VerifC11Run(spec VerifC11Spec) VerifC11Obs {
 	if obs.Sideband == nil {
 		obs.Sideband = [][2]string{}
 	}
-	return obs
+	return obs, results
 }
